@@ -1139,6 +1139,21 @@ macro_rules! interp {
                                         let addr = &*bx as *const Tr;
                                         chk(3, format!("{:p}", bx) == format!("{:p}", addr));
                                         std::mem::forget(plain);
+                                        // the caller's format spec (width, fill, alignment, sign, precision, alternate) must reach the value
+                                        let bi = box_any!($modname, s.bump, a);
+                                        chk(4, format!("{:>9}|{:<7}|{:^8}|{:+}|{:05}", bi, bi, bi, bi, bi) == format!("{:>9}|{:<7}|{:^8}|{:+}|{:05}", a, a, a, a, a));
+                                        chk(5, format!("{:6?}|{:#?}|{:+?}", bi, bi, bi) == format!("{:6?}|{:#?}|{:+?}", a, a, a));
+                                        let fl = a as f64 / 7.0 + b as f64;
+                                        let bf = box_any!($modname, s.bump, fl);
+                                        chk(6, format!("{:.3}|{:10.2}|{:+}|{:08.1}", bf, bf, bf, bf) == format!("{:.3}|{:10.2}|{:+}|{:08.1}", fl, fl, fl, fl));
+                                        let st: &'static str = "héllo wörld";
+                                        let bs = box_any!($modname, s.bump, st);
+                                        chk(7, format!("{:.3}|{:>14}|{:*<13.4}|{:?}|{:12?}", bs, bs, bs, bs, bs) == format!("{:.3}|{:>14}|{:*<13.4}|{:?}|{:12?}", st, st, st, st, st));
+                                        let (w, p) = ((a.rem_euclid(9) + 3) as usize, (b.rem_euclid(4)) as usize);
+                                        chk(8, format!("{:>w$.p$}|{:<w$}", bf, bi, w = w, p = p) == format!("{:>w$.p$}|{:<w$}", fl, a, w = w, p = p));
+                                        let tup = (a, "x", [b; 2]);
+                                        let bt = box_any!($modname, s.bump, tup);
+                                        chk(9, format!("{:?}|{:#?}", bt, bt) == format!("{:?}|{:#?}", tup, tup));
                                     }
                                     4 => {
                                         use std::future::Future;
